@@ -977,6 +977,8 @@ def run_c11(ctx):
         small_limit = ctx.pick(11000, 70000)
         rate = ctx.pick(0.25, 0.03)
         jobs = []
+        big_limit = ctx.pick(200000, 10 ** 9)       # quick: the listings above 200 kB are left to the thorough tier
+        files = [(size, rel) for size, rel in files if size <= big_limit]
         for size, rel in files:
             if size <= small_limit:
                 offs = list(range(0, size + 1))
@@ -990,6 +992,20 @@ def run_c11(ctx):
         jobs.sort(key=lambda j: -len(j[1]) * (1 + os.path.getsize(os.path.join(core.REPO, j[0])) // 20000))
         file_results = pool.map(_work_offsets, jobs, chunksize=1)
     _t('offsets of real listings parsed')
+    # history clause, other direction: the same parses as the FIRST thing a process does (pyparsing learns the
+    # arity of every parse action at its first successful call and treats exceptions differently before that)
+    fresh = []
+    for size, rel in files:
+        frng = random.Random(ctx.seed * 31 + size)
+        if size > 70000:
+            tail = sorted(set([size, size - 1, size - 40] + [frng.randrange(size // 2, size) for _ in range(ctx.pick(0, 4))]))
+        else:
+            tail = sorted(set([size] + [max(0, size - d) for d in (1, 2, 3, 5, 8, 13, 40, 90, 200)]
+                              + [frng.randrange(size // 2, size + 1) for _ in range(ctx.pick(3, 12))]))
+        fresh.append((rel, tail, ctx.seed + size, 1.0, 0, False))
+    with multiprocessing.get_context('fork').Pool(NPROC, initializer=_init_worker, maxtasksperchild=1) as pool:
+        file_results += pool.map(_work_offsets, fresh, chunksize=1)
+    _t('fresh-process parses')
 
     for r in model_results:
         n_states += r['n']
@@ -1044,6 +1060,11 @@ def run_c11(ctx):
         cases.sort(key=lambda c: c['pos'])
         data.append(dict(name=rel, lines=pf['lines'], cases=cases))
         index.append(idx)
+    if os.environ.get('VERIF_SELFTEST_CORRUPT'):
+        # self-test of the binding: falsify one recorded field (a time of a successfully parsed edition)
+        victim = next(c for d in data for c in d['cases'] if any(e['ok'] and e['times'] for e in c['eds']))
+        ed = next(e for e in victim['eds'] if e['ok'] and e['times'])
+        ed['times'][0]['t'] += 1
     cj = tlc.json_dump(os.path.join(wd, 'cases.json'), data)
     if os.environ.get('VERIF_KEEP'):
         tlc.json_dump(os.path.join(os.environ['VERIF_KEEP'], 'c11_cases.json'), data)
